@@ -504,8 +504,15 @@ class Arbiter:
         util._setproctitle("master [%s]" % self.proc_name)
 
         # spawn new workers
+        last_old_age = self.worker_age
         for _ in range(self.cfg.workers):
             self.spawn_worker()
+
+        # retire the whole previous generation: counting is not enough, a new
+        # worker that has already died would leave an old one in the pool
+        for (pid, worker) in list(self.WORKERS.items()):
+            if worker.age <= last_old_age:
+                self.kill_worker(pid, signal.SIGTERM)
 
         # manage workers
         self.manage_workers()
